@@ -101,6 +101,37 @@ def run(chk):
                     if not okc:
                         bad.append(dict(info, what="CARMA.from_quads and CARMA(alpha, beta) describe different kernels",
                                         expected=got.tolist(), observed=got2.tolist()))
+    # data types: whole-number quadratic factors / polynomial coefficients given as INTEGER arrays next to real-valued ones
+    # (AR factors (s^2 + 3 s + 2)(s + 3) with MA factors 2.5 + s etc.): same kernel as with the values given as floats, = the companion-form oracle
+    for aqi, bqi, bm in (([2, 3], [2.5], 1.5), ([2, 3], [], 0.7), ([2, 3, 6, 5, 3], [1.5, 2.5], 0.5), ([2, 3, 3], [0.5], 2.0)):
+        n_eval += 1
+        infoq = dict(alpha_quads=aqi, beta_quads=bqi, beta_mult=bm, dtype="int alpha_quads")
+        try:
+            k_int = qs.CARMA.from_quads(alpha_quads=jnp.asarray(aqi), beta_quads=jnp.asarray(bqi, dtype=float), beta_mult=jnp.asarray(bm))
+            k_flt = qs.CARMA.from_quads(alpha_quads=jnp.asarray(aqi, dtype=float), beta_quads=jnp.asarray(bqi, dtype=float), beta_mult=jnp.asarray(bm))
+            g_i = np.array([float(k_int.evaluate(jnp.asarray(0.0), jnp.asarray(t))) for t in taus])
+            g_f = np.array([float(k_flt.evaluate(jnp.asarray(0.0), jnp.asarray(t))) for t in taus])
+            al_ = np.asarray(qs.carma_quads2poly(jnp.asarray(np.append(np.asarray(aqi, float), 1.0))))[:-1]
+            be_ = np.asarray(qs.carma_quads2poly(jnp.asarray(np.append(np.asarray(bqi, float), bm))))
+            w_ = companion_acvf(al_, be_, taus)
+        except Exception as e:  # noqa: BLE001
+            bad.append(dict(infoq, what=f"CARMA.from_quads with integer-typed quadratic factors raises {type(e).__name__}: {str(e)[:80]}"))
+            continue
+        if np.all(np.isfinite(g_f)):
+            for nm_, g_ in (("integer-typed alpha_quads", g_i), ("float alpha_quads", g_f)):
+                okq, _ = close(g_, w_, 1e-7)
+                if not okq:
+                    bad.append(dict(infoq, what=f"CARMA.from_quads ({nm_}) is not the companion-form autocovariance", expected=w_.tolist(), observed=g_.tolist()))
+    for alpha_i, beta_f in (([2, 3], [1.0, 0.4]), ([6, 11, 6], [1.5])):
+        n_eval += 1
+        try:
+            g_ = np.array([float(qs.CARMA.init(jnp.asarray(alpha_i), jnp.asarray(beta_f)).evaluate(jnp.asarray(0.0), jnp.asarray(t))) for t in taus])
+            w_ = companion_acvf(np.asarray(alpha_i, float), np.asarray(beta_f, float), taus)
+            okq, _ = close(g_, w_, 1e-7)
+            if np.all(np.isfinite(g_)) and not okq:
+                bad.append(dict(alpha=alpha_i, beta=beta_f, what="CARMA.init with integer-typed alpha is not the companion-form autocovariance", expected=w_.tolist(), observed=g_.tolist()))
+        except Exception as e:  # noqa: BLE001
+            bad.append(dict(alpha=alpha_i, beta=beta_f, what=f"CARMA.init with integer-typed alpha raises {type(e).__name__}: {str(e)[:80]}"))
     chk.cov["evaluations"] = n_eval
     chk.cov["distinct_nontrivial"] = len(distinct)
     chk.cov["disagreements_checked"] = n_eval
